@@ -81,6 +81,10 @@ func runQUIC(t *testing.T, tape *simrt.Tape, g simrt.Gen, o *common.Outcome, qui
 		}
 	}
 	payload := []int{64, 2000, 70000}[g.Weighted(3, 3, 1)]
+	cold := g.Int(4) == 3 // no warm-up attempt: the planned fault hits the first contact (see the TCP stratum); background UDP faults from the start
+	if cold {
+		o.Logf("cold start: no warm-up attempt")
+	}
 	if punch {
 		o.Logf("simultaneous connect: A in the server role of a hole punch, B dials A after %v", punchDelay)
 	}
@@ -231,21 +235,24 @@ func runQUIC(t *testing.T, tape *simrt.Tape, g simrt.Gen, o *common.Outcome, qui
 		}
 
 		// warm-up on a perfect wire
-		ctx0, cancel0 := context.WithTimeout(context.Background(), 30*time.Second)
-		if r := attempt(ctx0); r != "ok" {
+		var base map[string]int
+		if !cold {
+			ctx0, cancel0 := context.WithTimeout(context.Background(), 30*time.Second)
+			if r := attempt(ctx0); r != "ok" {
+				cancel0()
+				o.Trouble = "warm-up attempt failed: " + r
+				return
+			}
 			cancel0()
-			o.Trouble = "warm-up attempt failed: " + r
-			return
+			settle(2 * time.Second)
+			closeConns()
+			settle(3 * time.Minute)
+			if pr := append(statProblems("A", a.Rcmgr), statProblems("B", b.Rcmgr)...); len(pr) > 0 {
+				o.Violate("C04/usage-after-clean-close/quic", "after a fault-free QUIC connect/echo/close: %v", pr)
+				return
+			}
+			base = goroutines()
 		}
-		cancel0()
-		settle(2 * time.Second)
-		closeConns()
-		settle(3 * time.Minute)
-		if pr := append(statProblems("A", a.Rcmgr), statProblems("B", b.Rcmgr)...); len(pr) > 0 {
-			o.Violate("C04/usage-after-clean-close/quic", "after a fault-free QUIC connect/echo/close: %v", pr)
-			return
-		}
-		base := goroutines()
 
 		// arm the fault
 		switch bg {
@@ -428,7 +435,7 @@ func runQUIC(t *testing.T, tape *simrt.Tape, g simrt.Gen, o *common.Outcome, qui
 			if socks := n.UDPSockets(); len(extra) > 0 {
 				o.Violate("C04/udp-socket-left/"+reuseTag+class(p)+"/"+attemptOutcome, "6 virtual minutes after %s (attempt %s) with every connection closed, the open UDP sockets are %v (the listening ones are 10.0.0.1:4001 and 10.0.0.2:4001)", p, attemptOutcome, socks)
 			}
-			if extra := newGoroutines(base, goroutines()); len(extra) > 0 {
+			if extra := newGoroutines(base, goroutines()); base != nil && len(extra) > 0 {
 				o.Violate("C04/goroutine-left/"+reuseTag+class(p)+"/"+attemptOutcome, "goroutines that did not exist before the attempt: %v", extra)
 			}
 		}
@@ -466,9 +473,12 @@ func runQUIC(t *testing.T, tape *simrt.Tape, g simrt.Gen, o *common.Outcome, qui
 			o.Fault(k)
 		}
 	}
-	o.Sig = fmt.Sprintf("quic%d|bg%d|%s|%s|fired=%v|%d|%v%v", quic, bg, p, attemptOutcome, fired, udp["udp-lost"], punch, punchDelay)
+	o.Sig = fmt.Sprintf("quic%d|bg%d|%s|%s|fired=%v|%d|%v%v|%v", quic, bg, p, attemptOutcome, fired, udp["udp-lost"], punch, punchDelay, cold)
 	if punch {
 		o.Probe("hole-punch-" + attemptOutcome)
+	}
+	if cold && o.Nontrivial {
+		o.Probe("cold-start-outcome-" + attemptOutcome)
 	}
 	o.Nontrivial = fired || udp["udp-lost"] > 0
 	if o.Nontrivial {
